@@ -179,10 +179,8 @@ def escape : Str → Str
 /-- `replace_all(s, "\\\"", "\"")` -/
 def unescape : Str → Str
   | [] => []
-  | c :: r =>
-    match r with
-    | d :: r' => if c = '\\' && d = '"' then '"' :: unescape r' else c :: unescape r
-    | [] => [c]
+  | [c] => [c]
+  | c :: d :: r => if c = '\\' && d = '"' then '"' :: unescape r else c :: unescape (d :: r)
 
 def quoted (s : Str) : Str := '"' :: s ++ ['"']
 
@@ -458,10 +456,9 @@ def readDescLoop (cfg : Cfg) : Nat → Desc → P Desc
                 if a.name.isEmpty then .error "unspecified specific target name"
                 else if (mapFind a.name d.targets).isSome then .error "specific target multiply defined"
                 else
-                  readDescLoop cfg fuel
-                    { d with targets := mapSet a.name
-                        { deps := a.deps, cmds := a.cmds, sources := a.sources, libraries := a.libraries }
-                        d.targets } r5
+                  let st : STarget :=
+                    { deps := a.deps, cmds := a.cmds, sources := a.sources, libraries := a.libraries }
+                  readDescLoop cfg fuel { d with targets := mapSet a.name st d.targets } r5
     else .error "unsupported tag"
 
 /-- `read<TargetsDescription>` -/
